@@ -1,4 +1,5 @@
 mod c01;
+mod c08;
 mod ev;
 mod gen;
 mod jq;
@@ -18,6 +19,7 @@ fn main() {
     };
     match cmd {
         "c01" => c01::main(tier),
+        "c08" => c08::main(tier),
         "eval" => {
             // vmc eval '<program>' '<input as jq program>' [inputs as jq programs...]
             jq::quiet_panics();
